@@ -215,10 +215,14 @@ def replay_one(run, seed: int, driver=None):
     ops, srcs, prog, exp = run["ops"], run["srcs"], run["prog"], run["exp"]
     imp = bool(exp.get("imp", False))
     text = render_core.render(ops, srcs, prog, beta, imp, rng, run.get("placement"), bool(run.get("mutate")))
+    if run.get("layout"):
+        text = render_core.apply_layout(text, run["layout"], rng)
     F = [CATS[c] for c in exp["F"]]
     obs = execute(text, F, driver, rng)
-    info = {"beta": beta.name, "F": F, "imp": imp, "driver": driver or "inline"}
+    info = {"beta": beta.name, "F": F, "imp": imp, "driver": driver or "inline", "layout": run.get("layout")}
     mism = compare(ops, srcs, prog, beta, text, exp, obs, driver, F, run["id"])
+    for m in mism:
+        m["layout"] = run.get("layout")
     return mism, info, text, obs
 
 
